@@ -120,6 +120,30 @@ func (prop) Drive(d *core.Driver) error {
 			d.T.Sample(map[string]any{"case": c.ID, "main": doc.Main, "source": core.Truncate(doc.Files[doc.Main], 500), "holes": len(doc.Holes), "features": doc.Features})
 		}
 	}
+	// The map-key family: hostile text in the KEYS of maps with every kind of key type,
+	// nested and boxed in interface values, in JavaScript and JSON contexts.
+	nKey := d.N(250, 8000)
+	for i := 0; i < nKey; i++ {
+		r := core.Rand(d.Seed, fmt.Sprintf("C06/keys/%d", i))
+		doc := keyDocument(r)
+		cd := caseData{Kind: "doc", Doc: doc}
+		nh := len(doc.Holes)
+		for a := 0; a < nAssign; a++ {
+			as := assignment{Values: map[string]tmplgen.Value{}}
+			if a >= nAssign-2 {
+				as.Name = "all"
+				for _, h := range doc.Holes {
+					as.Values[h.Var] = hostileKey(r, h.Type)
+				}
+			} else {
+				h := doc.Holes[a%nh]
+				as.Name = h.Var
+				as.Values[h.Var] = hostileKey(r, h.Type)
+			}
+			cd.Assignments = append(cd.Assignments, as)
+		}
+		cases = append(cases, core.NewCase(fmt.Sprintf("keys-%d", i), cd))
+	}
 	results := d.Run(cases, core.RunOpts{})
 	if path := os.Getenv("C06_DUMP"); path != "" { // development aid: all non-OK details
 		var b strings.Builder
@@ -189,8 +213,8 @@ func (prop) Work(c core.Case) core.Result {
 	marks := map[string][]string{}
 	var allMarks []string
 	for i, h := range doc.Holes {
-		globals[h.Var] = tmplgen.Decl(h.Type)
-		benign[h.Var], marks[h.Var] = tmplgen.Benign(i, h.Type)
+		globals[h.Var] = declOf(h.Type)
+		benign[h.Var], marks[h.Var] = benignOf(i, h.Type)
 		if v, ok := cd.Benign[h.Var]; ok {
 			benign[h.Var] = v
 		}
@@ -218,10 +242,10 @@ func (prop) Work(c core.Case) core.Result {
 	run := func(vals map[string]tmplgen.Value) (string, error, string) {
 		vars := map[string]any{}
 		for k, v := range benign {
-			vars[k] = v.Go()
+			vars[k] = goOf(v)
 		}
 		for k, v := range vals {
-			vars[k] = v.Go()
+			vars[k] = goOf(v)
 		}
 		var buf bytes.Buffer
 		var rerr error
